@@ -195,12 +195,17 @@ func (v *VResult) checkCBNested(c *Case, rt *RT, i int, ii *InvokeInfo, ev Event
 			v.add(CNestedInvoke, i, "an Invoke made from the callback of f%d for %v, all of whose dependencies are built, returned %v", owner, nf.F.Short(), ev.SideErr)
 		}
 	case EvEnter:
+		// "ran before the Invoke" is judged at the time of the nested Invoke
+		okNow := map[int]bool{}
+		for id, g := range m.Fns {
+			okNow[id] = g.OkExec >= 0
+		}
 		for _, l := range nf.Leaves {
 			obs, ok := navigate(ev.Args, l.Path)
 			if !ok {
 				continue
 			}
-			v.checkLeaf(rt, i, ii, nf, l, obs, okAtStart)
+			v.checkLeaf(rt, i, ii, nf, l, obs, okNow)
 		}
 	}
 }
@@ -664,7 +669,7 @@ func (v *VResult) validateInvoke(c *Case, tr *Trace, rt *RT, i int, op Op, out O
 						}
 					}
 				}
-				if !ii.MayRun[g.ID] && !midFn {
+				if !ii.MayRun[g.ID] && !midFn && !inWindow[evIdx] {
 					v.add(COutsideClosure, i, "%v ran but is not reachable from the invoked function (mayRun=%v)", g, sortedIDs(ii.MayRun))
 				}
 			}
